@@ -124,6 +124,13 @@ def _worker_init(module_name, run_dir, redirect_fds=True):
     _WORKER['module'] = importlib.import_module(module_name)
     d = pathlib.Path(tempfile.mkdtemp(dir=run_dir, prefix=f'w{os.getpid()}_'))
     _WORKER['scratch'] = Scratch(d)
+    # whatever the library (or multiprocessing: pymp-* directories of Manager
+    # servers the harness has to terminate) puts into the DEFAULT temporary
+    # directory lands in the run directory and disappears with it
+    systmp = pathlib.Path(run_dir) / f'systmp_{os.getpid()}'
+    systmp.mkdir(exist_ok=True)
+    os.environ['TMPDIR'] = str(systmp)
+    tempfile.tempdir = str(systmp)
     if redirect_fds:
         # children forked by the library inherit these: nothing they print
         # reaches (or keeps open) the runner's stdout, and their tracebacks
